@@ -798,6 +798,16 @@ func runC18(r *core.Run) {
 		plan("blockreader-words3-depth3", mkBlocks(w3, 3, []int{0, 1, 3}), 3, true, "block reader over every carving of every word of ≤3 tokens")
 		plan("blockreader-curated-depth4", mkBlocks(curated, 2, []int{0, 1}), 4, false, "block reader over every carving (≤2 segments) of 8 curated sources")
 	}
+	// every byte value in the source (the readers use an in-band end marker; bytes such as 0xff, 0x00, 0x80 must be data)
+	{
+		var bsrc [][]byte
+		for b := 0; b < 256; b++ {
+			c := byte(b)
+			bsrc = append(bsrc, []byte{c}, []byte{'a', c, 'b', '\n', c, 'c'}, []byte{c, c, '\n', 'a', c})
+		}
+		plan("reader-byte-sweep-depth2", mkReaders(bsrc), 2, false, "source reader over 3 sources for EVERY byte value b (b; a b b LF b c; b b LF a b)")
+		plan("blockreader-byte-sweep-depth2", mkBlocks(bsrc, 2, []int{0, 2}), 2, false, "block reader over every carving (≤2 segments) of the same sources")
+	}
 	// padding ladder: EVERY padding width 0..maxP, set on the readers and carried by block-reader segments
 	maxP := core.Pick(r, 130, 520)
 	ladderSrcs := [][]byte{[]byte("ab\tc\nd"), []byte("\ta [b]\n"), []byte("a")}
